@@ -58,6 +58,7 @@ type Ctx struct {
 	assumptionsUsed map[string]bool
 	curFile *SpecFile
 	binds   map[string]types.Type // interface key -> concrete type
+	implFuns map[string]bool
 	cardSorts map[string]bool
 	codecs map[string]bool
 	goHandler func(g *FnGen, s *State, x *ssa.Go, key string) bool
@@ -70,6 +71,9 @@ var defaultDropped = []string{
 	`^github\.com/prometheus/`,
 	`^github\.com/ovrclk/akash/util/metrics`,
 	`^fmt\.Print`,
+	`^fmt\.Sprint`,
+	`\)\.String$`, // stringers (for log / error messages): pure, result unconstrained
+	`\)\.GoString$`,
 }
 
 func newCtx(repo string, patterns []string, specDirs []string) (*Ctx, error) {
@@ -77,7 +81,7 @@ func newCtx(repo string, patterns []string, specDirs []string) (*Ctx, error) {
 		contracts: map[string]*FuncContract{}, bound: map[string]bool{}, specs: map[string]*SpecFun{}, specFile: map[string]*SpecFile{},
 		compiled: map[string]*compiledSpec{}, ghosts: map[string]GhostDecl{}, props: map[string][]string{},
 		globals: map[string]int{}, typeIDs: map[string]int{}, fnIDs: map[*ssa.Function]int{}, fnByID: map[int]*ssa.Function{},
-		binds: map[string]types.Type{}, cardSorts: map[string]bool{}, codecs: map[string]bool{}, floatLits: map[string]string{}, ctrFile: map[*FuncContract]*SpecFile{}, assumptionsUsed: map[string]bool{}}
+		binds: map[string]types.Type{}, implFuns: map[string]bool{}, cardSorts: map[string]bool{}, codecs: map[string]bool{}, floatLits: map[string]string{}, ctrFile: map[*FuncContract]*SpecFile{}, assumptionsUsed: map[string]bool{}}
 	for _, d := range defaultDropped {
 		c.dropped = append(c.dropped, regexp.MustCompile(d))
 	}
@@ -205,6 +209,9 @@ func (c *Ctx) addFile(sf *SpecFile) error {
 			pp = f.PkgPath
 			if p, ok := sf.Imports[pp]; ok {
 				pp = p
+			}
+			if pp == "builtin" {
+				pp = ""
 			}
 		} else if pp == "" {
 			return fmt.Errorf("%s: func contract outside a package contract file", f.Where)
@@ -468,6 +475,13 @@ func (c *Ctx) globalConstT(key string, et types.Type) (string, bool) {
 		return app("mk-iface", intLit(int64(1000000+id)), ref), true
 	}
 	return "", false
+}
+
+// implFun: uninterpreted predicate "dynamic type id implements interface T"
+func (c *Ctx) implFun(t types.Type) string {
+	n := "impl_" + sanitize(types.TypeString(types.Unalias(t), nil))
+	c.implFuns[n] = true
+	return n
 }
 
 func (c *Ctx) floatLit(s string) string {
@@ -902,6 +916,9 @@ func (c *Ctx) prelude() *Prelude {
 		b.WriteString("(assert (forall ((a Str) (b Str)) (! (or (slt a b) (slt b a) (= a b)) :pattern ((slt a b)))))\n")
 		b.WriteString("(assert (forall ((a Str) (b Str)) (! (not (and (slt a b) (slt b a))) :pattern ((slt a b)))))\n")
 		b.WriteString("(assert (forall ((a Str) (b Str) (c Str)) (! (=> (and (slt a b) (slt b c)) (slt a c)) :pattern ((slt a b) (slt b c)))))\n")
+	}
+	for f := range c.implFuns {
+		fmt.Fprintf(common, "(declare-fun %s (Int) Bool)\n", f)
 	}
 	if c.needBits {
 		for _, op := range []string{"<<", ">>", "&", "|", "^", "&^"} {
